@@ -65,6 +65,16 @@ class VisitorTranslator:
             # the rule was established by running the loop body abstractly on the five kinds of statement it can tell apart
             # (extract.import_rule); the loop must be the only thing that touches `node.body`
             return ".insertImport"
+        # the helper-index form of the same rule (extract.import_rule has run the helper's loop abstractly and checked the
+        # shape of these two statements): `i = H(node.body)` is nothing yet, the guarded insert is the insertion
+        if self.import_rule == "before-first-non-prologue":
+            if isinstance(st, ast.Assign) and len(st.targets) == 1 and isinstance(st.targets[0], ast.Name) and isinstance(st.value, ast.Call) \
+                    and isinstance(st.value.func, ast.Name) and [_u(a) for a in st.value.args] == ["node.body"] and not st.value.keywords:
+                self.index_var = st.targets[0].id
+                return ".skip"
+            if isinstance(st, ast.If) and getattr(self, "index_var", None) and _u(st.test) == f"{self.index_var} is not None" and not st.orelse and len(st.body) == 1 \
+                    and isinstance(st.body[0], ast.Expr) and _u(st.body[0].value).startswith(f"node.body.insert({self.index_var}, "):
+                return ".insertImport"
         self.notes.append("statement: " + _u(st)[:100].replace("\n", " "))
         return ".unknown"
 
